@@ -478,14 +478,16 @@ class Machine:
         if name == "INT":
             # BASIC09's INT drops the fraction (toward zero).  floor() by integer witnesses on the path condition: z3 decides
             # such queries at once, while ToInt() terms send it into an unbounded search
+            # one witness k = floor(x): the value is k for x >= 0 or x integral, k + 1 otherwise (two witnesses, for x and
+            # -x, leave the solvers unable to relate them: measured unknown after 60 s in z3 4.8 / 5.1 and cvc5)
             x = self.num(st, args[0])
             can_pos, can_neg = self.feasible(st, x >= 0)
-            if not can_neg:
-                return ("n", toreal(floor_witness(st.cond, x)))
             if not can_pos:
                 return ("n", -toreal(floor_witness(st.cond, -x)))
-            kp, kn = floor_witness(st.cond, x), floor_witness(st.cond, -x)
-            return ("n", z3.If(x >= 0, toreal(kp), -toreal(kn)))
+            k = toreal(floor_witness(st.cond, x))
+            if not can_neg:
+                return ("n", k)
+            return ("n", z3.If(z3.Or(x >= 0, x == k), k, k + 1))
         if name == "CHR$":
             return ("s", z3.StrFromCode(toint(self.num(st, args[0]))))
         if name == "ASC":
@@ -900,9 +902,12 @@ _FLOOR_N = [0]
 
 
 def floor_witness(cond, x):
-    """fresh Int k with k <= x < k + 1 appended to `cond`; returns k"""
+    """Int k with k <= x < k + 1 appended to `cond`; returns k.  The witness is named after the term, so that two floors of
+    the same term are the same constant (no solver work to show them equal)"""
+    import hashlib
+
     _FLOOR_N[0] += 1
-    k = z3.Int(f"floor!{_FLOOR_N[0]}")
+    k = z3.Int("floor!" + hashlib.sha1(x.sexpr().encode()).hexdigest()[:12])
     cond.append(z3.ToReal(k) <= x)
     cond.append(x < z3.ToReal(k) + 1)
     return k
